@@ -3,6 +3,31 @@
 import json, subprocess, os
 
 CHECKS = {
+ "C05": dict(level="model_checking", engine="xstate",
+   technique="exhaustive enumeration of producer/consumer scripts over boundary event sizes x chunkings x flush/read policies, plus explicit-state BFS over queue operations, on the real queue vs. a slice-of-events model",
+   text="(i) every sequence of 1-2 (thorough: up to 3) events with sizes from the layout's boundary alphabet (page payload +/- a few bytes, event header straddling a page, multi page, larger than the write buffer) x 4 ways to split an event over Write calls x 3 flush policies x 4 read policies (whole, page buffer, 7-byte buffer, skip with Next; one or many reader transactions); (ii) BFS over Write(size class, chunking)/Flush/reader Begin/Next/Read(partial)/Done/ACK/reopen. Oracle: delivered events equal the flushed prefix of the appended events byte for byte, nothing skipped, duplicated, truncated or merged, Next returns the model size, unflushed events are never delivered, no call panics or deadlocks.",
+   note="Event sizes from a boundary alphabet; depth-bounded search; single harness thread (concurrency is C13).",
+   ref="5/C05"),
+ "C06": dict(level="fault_enumeration", engine="simdisk",
+   technique="exhaustive crash-image enumeration over the I/O of flush/ACK/close transitions of queue histories from an explicit-state BFS",
+   text="One queue history per distinct I/O shape of a writing operation (event write with implicit flush, Flush, ACK, close): every I/O boundary x every subset of un-synced page writes x header tears; the image is opened through txfile open + NewStandaloneDelegate + pq.New; the reader must deliver exactly the events [acked', flushed') of the recovered header's transaction (the last completed one or, atomically, the flush/ACK in flight), counters must agree, and a write/flush/read/ACK/reopen round must work.",
+   note="As C01: page-granular loss, durable after a completed Sync. Clean close/reopen points are exercised by the Reopen operation of the C05/C17 search.",
+   ref="5/C06"),
+ "C12": dict(level="model_checking", engine="xstate",
+   technique="explicit-state BFS over queue operations including fill-until-error on small bounded files, with a model-computed space bound at every quiescent state, plus scripted fill/drain cycles",
+   text="On 64-page files: BFS over Write(3 size classes)/Flush/Fill-until-error/Finish/ReadAll/ACK(1|all)/Reopen. Oracle: order and content by the event model throughout; a full file makes Write/Next/Flush return an error without affecting what is delivered; reading and ACK succeed on the full file; data pages held never exceed header + pages of un-ACKed flushed events + pages of the most recent event (computed from the model, so independent of past traffic); after a drain a further event is accepted; 4-6 fill/drain cycles per event size class.",
+   note="Bound per the property statement; the number of events accepted per cycle is recorded, not judged.",
+   ref="5/C12"),
+ "C13": dict(level="model_checking", engine="sched+vsync",
+   technique="stateless enumeration of all producer/consumer thread schedules up to a preemption bound on the real queue, plus happens-before race detection inside those schedules",
+   text="Producer thread (Write/Next/Flush), consumer thread (Begin/Next/Read/Done/ACK, polling with a fair spin yield) and the file's background writer on one queue, event mixes sharing pages, spanning pages and exceeding the buffer, with and without a prefilled/partly ACKed queue. Every schedule within the preemption bound is executed; the consumer's sequence must be a prefix of the produced one at every point and equal at the end, every ACK must succeed, nothing may deadlock, the queue must be empty and still accept and deliver a further event afterwards. The same schedules run in the -race build with scheduler hand-offs hidden from the detector.",
+   note="Preemption-bounded (1 quick, 2 thorough).",
+   ref="5/C13"),
+ "C17": dict(level="model_checking", engine="xstate",
+   technique="same exhaustive script enumeration and explicit-state BFS as C05, judging counters and callbacks after every operation",
+   text="After every operation of every C05 script and BFS transition: Pending and Active equal flushed - ACKed of the model, Reader.Available equals flushed - consumed inside reader transactions, the Flushed callback total lies within what the call history allows (exact after every explicit Flush/close) and the ACKed callback total equals the ACKed events - also after reopening the queue.",
+   note="The number of events covered by an implicit flush is bounded by the history and then taken from the callbacks; all other indicators must agree with it.",
+   ref="5/C17"),
  "C02": dict(level="model_checking", engine="sched+vsync",
    technique="stateless enumeration of all thread schedules up to a preemption bound (writer program x readers x background writer) on the real implementation, interval oracle over the scheduler's total order",
    text="One writer program (overwrite full/partial, flush, free+alloc, checkpoint, commit that remaps the file; ending in commit, rollback, failed commit or two commits) runs against one or two readers on files with plain pages, overwrite mappings, fragmented free lists, or about to outgrow the mapping. Every schedule within the preemption bound is executed. Each reader reads every page twice with a scheduling point in between; both reads must equal one committed model state whose commit index lies between the last commit completed before BeginReadonly was called and the last commit started before it returned; aborted and failed commits are never visible; unmapped views are poisoned so a use-after-remap shows.",
